@@ -31,6 +31,12 @@ pub struct PlCase {
     /// probed event type for message / state
     pub probe_type: String,
     pub actor_is_target: bool,
+    /// the acting user is the room creator (whose level comes from `users` / `users_default`
+    /// like anybody else's once a power-levels event exists)
+    #[serde(default)]
+    pub actor_is_creator: bool,
+    #[serde(default)]
+    pub target_is_creator: bool,
 }
 
 fn uid(s: &str) -> &UserId {
@@ -43,15 +49,27 @@ fn oracle(c: &PlCase, cx: &mut CaseCtx) -> Result<(), String> {
         return Ok(());
     };
     let pl = RoomPowerLevels::from(typed);
-    let actor = uid(ACTOR);
-    let target = if c.actor_is_target { actor } else { uid(TARGET) };
-    let target_s = if c.actor_is_target { ACTOR } else { TARGET };
+    let actor_s = if c.actor_is_creator { CREATOR } else { ACTOR };
+    let actor = uid(actor_s);
+    let target_s = if c.actor_is_target {
+        actor_s
+    } else if c.target_is_creator && !c.actor_is_creator {
+        CREATOR
+    } else {
+        TARGET
+    };
+    let target = uid(target_s);
+    // the creator has joined at room creation: "never was a member" does not exist for them
+    let tm: &str = if target_s == CREATOR && c.target_membership == "none" { "leave" } else { &c.target_membership };
+    cx.class_if(c.actor_is_creator || target_s == CREATOR, "creator_involved");
+    cx.class_if(c.content.get("users").is_none(), "no_users_map");
+    cx.class_if(c.content.get("users").is_none() && (c.actor_is_creator || target_s == CREATOR), "creator_without_users_map");
     // minimal room
     let mut s = Sc::new(c.version);
     s.member(CREATOR, "join");
     s.join_rule("public");
     s.pl(c.content.clone());
-    s.member(ACTOR, "join");
+    s.member(actor_s, "join");
     let auth = |s: &mut Sc, e: crate::ev::Ev| -> Result<bool, String> {
         let rs = ruma_state(&s.state.values().cloned().collect::<Vec<_>>())?;
         Ok(ruma_decides(s.v, &e, &rs)?.is_ok())
@@ -59,9 +77,9 @@ fn oracle(c: &PlCase, cx: &mut CaseCtx) -> Result<(), String> {
     let (helper, rules, what): (bool, bool, String) = match c.action.as_str() {
         "ban" => {
             if !c.actor_is_target {
-                s.member(TARGET, &c.target_membership);
+                s.member(target_s, tm);
             }
-            let e = s.event("m.room.member", Some(target_s), ACTOR, json!({"membership": "ban"}));
+            let e = s.event("m.room.member", Some(target_s), actor_s, json!({"membership": "ban"}));
             let h = pl.user_can_ban_user(actor, target);
             if pl.user_can_do_to_user(actor, target, PowerLevelUserAction::Ban) != h {
                 return Err("user_can_do_to_user(Ban) disagrees with user_can_ban_user".into());
@@ -73,34 +91,34 @@ fn oracle(c: &PlCase, cx: &mut CaseCtx) -> Result<(), String> {
             (h, auth(&mut s, e)?, "user_can_ban_user".into())
         }
         "kick" => {
-            s.member(TARGET, &c.target_membership);
-            let e = s.event("m.room.member", Some(TARGET), ACTOR, json!({"membership": "leave"}));
-            let h = pl.user_can_kick_user(actor, uid(TARGET));
-            if pl.user_can_do_to_user(actor, uid(TARGET), PowerLevelUserAction::Kick) != h || pl.user_can_do(actor, PowerLevelAction::Kick) != pl.user_can_kick(actor) {
+            s.member(target_s, tm);
+            let e = s.event("m.room.member", Some(target_s), actor_s, json!({"membership": "leave"}));
+            let h = pl.user_can_kick_user(actor, target);
+            if pl.user_can_do_to_user(actor, target, PowerLevelUserAction::Kick) != h || pl.user_can_do(actor, PowerLevelAction::Kick) != pl.user_can_kick(actor) {
                 return Err("kick dispatchers disagree".into());
             }
             (h, auth(&mut s, e)?, "user_can_kick_user".into())
         }
         "unban" => {
-            s.member(TARGET, "ban");
-            let e = s.event("m.room.member", Some(TARGET), ACTOR, json!({"membership": "leave"}));
-            let h = pl.user_can_unban_user(actor, uid(TARGET));
-            if pl.user_can_do_to_user(actor, uid(TARGET), PowerLevelUserAction::Unban) != h || pl.user_can_do(actor, PowerLevelAction::Unban) != pl.user_can_unban(actor) {
+            s.member(target_s, "ban");
+            let e = s.event("m.room.member", Some(target_s), actor_s, json!({"membership": "leave"}));
+            let h = pl.user_can_unban_user(actor, target);
+            if pl.user_can_do_to_user(actor, target, PowerLevelUserAction::Unban) != h || pl.user_can_do(actor, PowerLevelAction::Unban) != pl.user_can_unban(actor) {
                 return Err("unban dispatchers disagree".into());
             }
             (h, auth(&mut s, e)?, "user_can_unban_user".into())
         }
         "invite" => {
-            s.member(TARGET, &c.target_membership);
-            let e = s.event("m.room.member", Some(TARGET), ACTOR, json!({"membership": "invite"}));
+            s.member(target_s, tm);
+            let e = s.event("m.room.member", Some(target_s), actor_s, json!({"membership": "invite"}));
             let h = pl.user_can_invite(actor);
-            if pl.user_can_do(actor, PowerLevelAction::Invite) != h || pl.user_can_do_to_user(actor, uid(TARGET), PowerLevelUserAction::Invite) != h {
+            if pl.user_can_do(actor, PowerLevelAction::Invite) != h || pl.user_can_do_to_user(actor, target, PowerLevelUserAction::Invite) != h {
                 return Err("invite dispatchers disagree".into());
             }
             (h, auth(&mut s, e)?, "user_can_invite".into())
         }
         "message" => {
-            let e = s.event(&c.probe_type, None, ACTOR, json!({"body": "x"}));
+            let e = s.event(&c.probe_type, None, actor_s, json!({"body": "x"}));
             let t = MessageLikeEventType::from(c.probe_type.as_str());
             let h = pl.user_can_send_message(actor, t.clone());
             if pl.user_can_do(actor, PowerLevelAction::SendMessage(t.clone())) != h || (pl.for_user(actor) >= pl.for_message(t)) != h {
@@ -109,7 +127,7 @@ fn oracle(c: &PlCase, cx: &mut CaseCtx) -> Result<(), String> {
             (h, auth(&mut s, e)?, format!("user_can_send_message({})", c.probe_type))
         }
         "state" => {
-            let e = s.event(&c.probe_type, Some(""), ACTOR, json!({"x": 1}));
+            let e = s.event(&c.probe_type, Some(""), actor_s, json!({"x": 1}));
             let t = StateEventType::from(c.probe_type.as_str());
             let h = pl.user_can_send_state(actor, t.clone());
             if pl.user_can_do(actor, PowerLevelAction::SendState(t.clone())) != h || (pl.for_user(actor) >= pl.for_state(t)) != h {
@@ -129,7 +147,7 @@ fn oracle(c: &PlCase, cx: &mut CaseCtx) -> Result<(), String> {
                 user_display_name: "x".into(),
                 power_levels: Some(PushConditionPowerLevelsCtx::from(pl.clone())),
             };
-            let ev: Raw<Value> = Raw::from_json(serde_json::value::to_raw_value(&json!({"type": "m.room.message", "sender": ACTOR, "content": {"body": "@room"}})).unwrap());
+            let ev: Raw<Value> = Raw::from_json(serde_json::value::to_raw_value(&json!({"type": "m.room.message", "sender": actor_s, "content": {"body": "@room"}})).unwrap());
             let cond = PushCondition::SenderNotificationPermission { key: "room".into() }.applies(&FlattenedJson::from_raw(&ev), &ctx);
             (h, cond, "user_can_trigger_room_notification vs sender_notification_permission".into())
         }
@@ -201,20 +219,20 @@ fn cells() -> Vec<PlCase> {
                 for tl in around {
                     for th in around {
                         for tm in ["join", "leave", "invite", "none"] {
-                            out.push(PlCase { version: v, content: with(base(tl), "ban", th), action: "ban".into(), target_membership: tm.into(), probe_type: String::new(), actor_is_target: false });
+                            out.push(PlCase { version: v, content: with(base(tl), "ban", th), action: "ban".into(), target_membership: tm.into(), probe_type: String::new(), actor_is_target: false, actor_is_creator: false, target_is_creator: false });
                         }
                         for tm in ["join", "invite"] {
-                            out.push(PlCase { version: v, content: with(base(tl), "kick", th), action: "kick".into(), target_membership: tm.into(), probe_type: String::new(), actor_is_target: false });
+                            out.push(PlCase { version: v, content: with(base(tl), "kick", th), action: "kick".into(), target_membership: tm.into(), probe_type: String::new(), actor_is_target: false, actor_is_creator: false, target_is_creator: false });
                         }
                         for th2 in around {
-                            out.push(PlCase { version: v, content: with(with(base(tl), "ban", th), "kick", th2), action: "unban".into(), target_membership: "ban".into(), probe_type: String::new(), actor_is_target: false });
+                            out.push(PlCase { version: v, content: with(with(base(tl), "ban", th), "kick", th2), action: "unban".into(), target_membership: "ban".into(), probe_type: String::new(), actor_is_target: false, actor_is_creator: false, target_is_creator: false });
                         }
                     }
-                    out.push(PlCase { version: v, content: base(tl), action: "ban".into(), target_membership: "join".into(), probe_type: String::new(), actor_is_target: true });
+                    out.push(PlCase { version: v, content: base(tl), action: "ban".into(), target_membership: "join".into(), probe_type: String::new(), actor_is_target: true, actor_is_creator: false, target_is_creator: false });
                 }
                 for th in around {
                     for tm in ["none", "leave"] {
-                        out.push(PlCase { version: v, content: with(base(None), "invite", th), action: "invite".into(), target_membership: tm.into(), probe_type: String::new(), actor_is_target: false });
+                        out.push(PlCase { version: v, content: with(base(None), "invite", th), action: "invite".into(), target_membership: tm.into(), probe_type: String::new(), actor_is_target: false, actor_is_creator: false, target_is_creator: false });
                     }
                     for entry in around {
                         for (action, ty, field) in [("message", "m.room.message", "events_default"), ("message", "m.reaction", "events_default"), ("state", "m.room.topic", "state_default"), ("state", "org.example.state", "state_default")] {
@@ -222,14 +240,82 @@ fn cells() -> Vec<PlCase> {
                             if let Some(e) = entry {
                                 c["events"] = json!({ty: lvl(e, string)});
                             }
-                            out.push(PlCase { version: v, content: c, action: action.into(), target_membership: String::new(), probe_type: ty.into(), actor_is_target: false });
+                            out.push(PlCase { version: v, content: c, action: action.into(), target_membership: String::new(), probe_type: ty.into(), actor_is_target: false, actor_is_creator: false, target_is_creator: false });
                         }
                     }
                     let mut c = base(None);
                     if let Some(t) = th {
                         c["notifications"] = json!({"room": lvl(t, string)});
                     }
-                    out.push(PlCase { version: v, content: c, action: "notify".into(), target_membership: String::new(), probe_type: String::new(), actor_is_target: false });
+                    out.push(PlCase { version: v, content: c, action: "notify".into(), target_membership: String::new(), probe_type: String::new(), actor_is_target: false, actor_is_creator: false, target_is_creator: false });
+                }
+            }
+        }
+    }
+    out
+}
+
+/// Cells around the room creator: once a power-levels event exists the creator's level is read
+/// from it like anybody else's (`users` entry, else `users_default`, also when `users` is absent).
+fn creator_cells() -> Vec<PlCase> {
+    let mut out = vec![];
+    for v in 3..=11u8 {
+        for users in ["absent", "empty", "creator_50", "creator_100", "other_only"] {
+            for users_default in [None, Some(49i64), Some(50), Some(51), Some(100), Some(150)] {
+                for creator_is_actor in [true, false] {
+                    for th in [None, Some(50i64), Some(51), Some(100), Some(101)] {
+                        let mut c = serde_json::Map::new();
+                        match users {
+                            "absent" => {}
+                            "empty" => {
+                                c.insert("users".into(), json!({}));
+                            }
+                            "creator_50" => {
+                                c.insert("users".into(), json!({CREATOR: 50}));
+                            }
+                            "creator_100" => {
+                                c.insert("users".into(), json!({CREATOR: 100}));
+                            }
+                            _ => {
+                                c.insert("users".into(), json!({ACTOR: 50, TARGET: 50}));
+                            }
+                        }
+                        if let Some(d) = users_default {
+                            c.insert("users_default".into(), json!(d));
+                        }
+                        let base = Value::Object(c);
+                        let with = |f: &str| {
+                            let mut c = base.clone();
+                            if let Some(x) = th {
+                                c[f] = json!(x);
+                            }
+                            c
+                        };
+                        let mk = |content: Value, action: &str, tm: &str, probe: &str| PlCase {
+                            version: v,
+                            content,
+                            action: action.into(),
+                            target_membership: tm.into(),
+                            probe_type: probe.into(),
+                            actor_is_target: false,
+                            actor_is_creator: creator_is_actor,
+                            target_is_creator: !creator_is_actor,
+                        };
+                        out.push(mk(with("ban"), "ban", "join", ""));
+                        out.push(mk(with("kick"), "kick", "join", ""));
+                        out.push(mk(with("ban"), "unban", "ban", ""));
+                        out.push(mk(with("kick"), "unban", "ban", ""));
+                        if creator_is_actor {
+                            out.push(mk(with("invite"), "invite", "none", ""));
+                            out.push(mk(with("events_default"), "message", "", "m.room.message"));
+                            out.push(mk(with("state_default"), "state", "", "m.room.topic"));
+                            let mut n = base.clone();
+                            if let Some(x) = th {
+                                n["notifications"] = json!({"room": x});
+                            }
+                            out.push(mk(n, "notify", "", ""));
+                        }
+                    }
                 }
             }
         }
@@ -246,11 +332,17 @@ fn random_case() -> impl Strategy<Value = PlCase> {
         prop::option::of(level()),
         prop::collection::vec((prop_oneof![Just("m.room.message"), Just("m.room.topic"), Just("m.reaction"), Just("org.example.state")], level()), 0..3),
         prop::option::of(level()),
-        (0u8..7, any::<bool>(), any::<u8>()),
+        (0u8..7, any::<bool>(), any::<u8>(), 0u8..6, 0u8..5),
     )
-        .prop_map(|(version, fields, actor, target, events, notif, (act, string, tm))| {
+        .prop_map(|(version, fields, actor, target, events, notif, (act, string, tm, users_shape, who))| {
             let string = string && version < 10;
-            let mut c = json!({"users": {CREATOR: lvl(100, string)}});
+            // users map: with the creator at 100 (usual), without the creator, or absent altogether
+            let mut c = match users_shape {
+                0 => json!({}),
+                1 => json!({"users": {}}),
+                _ => json!({"users": {CREATOR: lvl(100, string)}}),
+            };
+            let (actor, target) = if users_shape == 0 { (None, None) } else { (actor, target) };
             for (f, x) in fields {
                 c[f] = lvl(x, string);
             }
@@ -282,7 +374,7 @@ fn random_case() -> impl Strategy<Value = PlCase> {
                 "state" => ["m.room.topic", "org.example.state"][tm as usize % 2],
                 _ => "",
             };
-            PlCase { version, content: c, action: action.into(), target_membership: target_membership.into(), probe_type: probe_type.into(), actor_is_target: false }
+            PlCase { version, content: c, action: action.into(), target_membership: target_membership.into(), probe_type: probe_type.into(), actor_is_target: false, actor_is_creator: who == 1, target_is_creator: who == 2 }
         })
 }
 
@@ -311,7 +403,21 @@ pub fn run(ck: &mut Check) {
     for cls in ["act_ban", "act_kick", "act_unban", "act_invite", "act_message", "act_state", "act_notify", "helper_yes", "helper_no", "boundary_level", "string_levels"] {
         ck.floor("threshold_cells", cls, 100);
     }
+    let creator = std::sync::Arc::new(creator_cells());
+    ck.extra("creator_cells", json!(creator.len()));
+    ck.exhaustive(
+        "creator_cells",
+        true,
+        move |s, n| {
+            let all = creator.clone();
+            (0..all.len()).skip(s as usize).step_by(n as usize).map(move |i| all[i].clone())
+        },
+        oracle,
+    );
+    ck.floor("creator_cells", "creator_without_users_map", 1000);
     let n = ck.n(600_000, 10_000_000);
     ck.prop("random_power_levels", n, random_case, oracle);
     ck.floor("random_power_levels", "boundary_level", 5000);
+    ck.floor("random_power_levels", "creator_involved", 5000);
+    ck.floor("random_power_levels", "no_users_map", 5000);
 }
